@@ -677,6 +677,7 @@ func (s *lcSigner) MuSig2Cleanup(context.Context, [32]byte) error { return nil }
 type lcAuctioneer struct {
 	account.Auctioneer
 	inits   int
+	lastInit *wire.OutPoint // outpoint of the account handed to the last InitAccount call
 	failSub bool // fault injection: StartAccountSubscription fails
 }
 
@@ -685,8 +686,12 @@ func (a *lcAuctioneer) ReserveAccount(context.Context, btcutil.Amount, uint32,
 
 	return &account.Reservation{AuctioneerKey: lcAuctKey, InitialBatchKey: lcBatchKey}, nil
 }
-func (a *lcAuctioneer) InitAccount(context.Context, *account.Account) error {
+func (a *lcAuctioneer) InitAccount(_ context.Context, acct *account.Account) error {
 	a.inits++
+	if acct != nil {
+		op := acct.OutPoint
+		a.lastInit = &op
+	}
 	return nil
 }
 func (a *lcAuctioneer) ModifyAccount(context.Context, *account.Account, []*wire.TxIn,
